@@ -132,7 +132,7 @@ def scripted(env: Env, hid: str, script: list[Outcome], *, cursor: str | None = 
                        finalizers=list(meta.get('finalizers') or []),
                        annkeys=sorted((meta.get('annotations') or {}).keys()),
                        anns={k: v for k, v in (meta.get('annotations') or {}).items() if k.startswith('kopf.zalando.org/')},
-                       status=_plain(body.get('status', {})))
+                       status=_plain(body.get('status', {})), raw=_plain(body))
         if 'reason' in kw:
             rec['reason'] = str(kw['reason'])
         if 'old' in kw:
